@@ -229,10 +229,10 @@ def clone_cache(seed, dest):
 # --------------------------------------------------------------------------- helpers
 
 TEST_FUNC_RE = re.compile(r"^func\s+(Test\w*)\s*\(", re.M)
-IMPORT_MSG_RE = re.compile(r'^\s*msg\s+"([^"\n]*)"', re.M)
+IMPORT_MSG_RE = re.compile(r'\bmsg\s+"([^"\n]*)"')
 DECL_RE = re.compile(r"^(?:type|func|var|const)\s+(\w+)", re.M)
 WORD_RE = re.compile(r"[A-Za-z_]\w*")
-PTR_RE = re.compile(r"0x[0-9a-f]{8,}")
+PTR_RE = re.compile(r"0x[0-9a-f]{8,}|(?<=pc=)0x[0-9a-f]+")
 
 
 def read(path):
@@ -246,6 +246,9 @@ class Ctx:
         self.env = env
 
     def scrub(self, text):
+        # no scratch-directory names in the report: <work>/<variant>/x.go -> x.go
+        text = re.sub(re.escape(self.work) + r"/(?:full|lib|t\d+_\w+)/", "", text)
+        text = re.sub(r"(?m)^(\s*)(?:full|lib|t\d+_[a-z]+)/(?=[\w.-]+\.go:)", r"\1", text)
         text = text.replace(self.work + os.sep, "").replace(self.work, ".")
         return PTR_RE.sub("0xPTR", text)
 
@@ -291,16 +294,13 @@ def clean_detail(ctx, text):
     if "panic:" in text:
         i = text.index("panic:")
         head = text[i:].split("\n\n", 1)[0]
-        m = re.search(r"^\s+(?:\./|/)?\S*?([\w.-]+\.go:\d+)", text[i:], re.M)
-        frames = re.findall(r"^\s+\S*?/([\w.-]+\.go:\d+) \+0x", text[i:], re.M)
+        # first stack frame outside the Go runtime / testing package: where the emitted code blew up
         where = ""
-        for fr in frames:
+        for fr in re.findall(r"^\s+\S*?([\w.-]+\.go:\d+) \+0x", text[i:], re.M):
             if not fr.startswith(("panic.go", "testing.go", "asm_", "proc.go", "iface.go", "error.go",
-                                  "signal_", "value.go")):
+                                  "signal_", "value.go", "map", "slice.go", "string.go")):
                 where = " at " + fr
                 break
-        if not where and m:
-            where = ""
         text = head.strip() + where
     else:
         j = text.find("Error:")
@@ -454,6 +454,16 @@ def run(gen_dir, work):
         if names is None:
             names = [n for tf in test_files for n in TEST_FUNC_RE.findall(read(tf))]
         result["tests"] = run_binary(ctx, full, binary, names)
+        have = {t["name"] for t in result["tests"]}
+        for tf in test_files:
+            for n in TEST_FUNC_RE.findall(read(tf)):
+                if n not in have:
+                    have.add(n)
+                    result["tests"].append({
+                        "name": n, "status": "error",
+                        "detail": "%s: test function is not in the built test binary (the go tool ignored the file: "
+                                  "its name ends in a GOOS/GOARCH word or a build constraint excludes it)"
+                                  % os.path.basename(tf)})
         result["tests"].sort(key=lambda t: t["name"])
         return result
 
